@@ -103,11 +103,15 @@ pub struct Assign {
     /// layout's (the prover must read selectors from the keys, wire values and
     /// public inputs from the instance)
     pub inst_q: Option<Vec<[Fe; 11]>>,
+    /// the filler rows' wires (all carried by the ZERO witness in the compiled
+    /// description) are carried by ONE other witness with this value from the given
+    /// slot (row * 4 + wire) on: a long copy class split in two
+    pub filler_split: Option<(usize, Fe)>,
 }
 
 impl Assign {
     pub fn new(vals: Vec<[Fe; 4]>, pis: Vec<Fe>) -> Self {
-        Assign { vals, pis, share: None, extra_rows: 0, drop_last: false, script: vec![], inst_q: None }
+        Assign { vals, pis, share: None, extra_rows: 0, drop_last: false, script: vec![], inst_q: None, filler_split: None }
     }
 }
 
@@ -115,8 +119,24 @@ fn build(c: &mut Composer, lay: &Layout, asg: &Assign) {
     let share = asg.share.as_ref().unwrap_or(&lay.share);
     let zq = [zero(); 11];
     let z = Composer::ZERO;
-    for _ in 0..lay.filler() {
-        c.verif_raw_gate(zq, None, [z; 4]);
+    match asg.filler_split {
+        None => {
+            for _ in 0..lay.filler() {
+                c.verif_raw_gate(zq, None, [z; 4]);
+            }
+        }
+        Some((from, v)) => {
+            let alt = c.append_witness(v);
+            for i in 0..lay.filler() {
+                let mut ws = [z; 4];
+                for k in 0..4 {
+                    if i * 4 + k >= from {
+                        ws[k] = alt;
+                    }
+                }
+                c.verif_raw_gate(zq, None, ws);
+            }
+        }
     }
     // allocate witnesses per position
     let mut wit: HashMap<(usize, usize), Witness> = HashMap::new();
@@ -297,6 +317,7 @@ pub fn describe(lay: &Layout, asg: &Assign) -> Value {
         "inst_share": asg.share,
         "extra_rows": asg.extra_rows,
         "drop_last": asg.drop_last,
+        "filler_split": asg.filler_split.map(|(f, v)| json!({"from_slot": f, "value": hex(&v)})),
         "instance_selectors": asg.inst_q.as_ref().map(|q| q.iter().map(|r| r.iter().map(hex).collect::<Vec<_>>()).collect::<Vec<_>>()),
     })
 }
